@@ -866,6 +866,148 @@ def r17_false_means_reported(ctx):
     for o in c15.r2_false_implies_reported(ctx):
         yield o
 
+class _ENode(object):
+    """an error-tree loop node for the current-node bookkeeping: knows its level and its children"""
+    _sa_model = True
+
+    def __init__(self, level, parent=None):
+        self.level = level
+        self.id = level
+        self.parent = parent
+        self.children = []
+        self.elements = []
+        self.errors = []
+        self.closed = []
+
+    def close(self, node, seg, src):
+        self.closed.append(seg)
+        return None
+
+    def get_cur_line(self):
+        return 1
+
+    def __hash__(self):
+        return hash(('enode', id(self)))
+
+    def __eq__(self, o):
+        return self is o
+
+    def __repr__(self):
+        return '<%s node>' % self.level
+
+
+def r18_current_node_follows_the_envelope(ctx):
+    """an error reported for an envelope segment lands on the node the error handler calls current: after the header of
+    an interchange / group / set was added, and after its trailer closed it, the current segment node is the node of
+    that same interchange / group / set (an error found on the GE then belongs to the group - not to the set before
+    it, which would be marked rejected and have the error itemised under it), the new node is the last child of its
+    parent, and the pending-segment flag says it is already in the tree.  Decided by constant propagation through
+    the six methods."""
+    from ..absint import explore, helper_oracles
+    hf = helper_oracles(ctx, 'error_handler')
+    LEVELS = (('isa', None), ('gs', 'isa'), ('st', 'gs'))
+    for lvl, parent_lvl in LEVELS:
+        for kind in ('add', 'close'):
+            qual = 'err_handler.%s_%s_loop' % (kind, lvl)
+            fn = ctx.func('error_handler', qual)
+            g = ctx.cfg(fn)
+            nodes = {'isa': _ENode('ISA'), 'gs': _ENode('GS'), 'st': _ENode('ST')}
+            made = []
+
+            def ctor(level):
+                def mk(parent, seg_data=None, src=None):
+                    n = _ENode(level.upper(), parent)
+                    made.append(n)
+                    return n
+                return mk
+            funcs = dict(hf, err_isa=ctor('isa'), err_gs=ctor('gs'), err_st=ctor('st'))
+            env = {'self.cur_isa_node': nodes['isa'], 'self.cur_gs_node': nodes['gs'], 'self.cur_st_node': nodes['st'],
+                   'self.cur_seg_node': _ENode('SEG'), 'self.seg_node_added': False,
+                   'seg_data': 'SEGDATA', 'seg': 'SEGDATA', 'src': 'SRC', 'node': 'MAPNODE', 'self': _ENode('ROOT')}
+            root = env['self']
+            if kind == 'add':
+                env['self.cur_%s_node' % lvl] = None
+                if lvl != 'st':
+                    env['self.cur_st_node'] = None
+                if lvl == 'isa':
+                    env['self.cur_gs_node'] = None
+            fin = []
+
+            closes = []
+
+            def on_node(nd, e, g=g):
+                if nd is g.exit:
+                    fin.append(dict(e))
+                for x in g.walk_exprs(nd):
+                    if isinstance(x, ast.Call) and isinstance(x.func, ast.Attribute) and x.func.attr == 'close':
+                        try:
+                            closes.append((A.ev(x.func.value, e, funcs), tuple(A.ev(a_, e, funcs) for a_ in x.args)))
+                        except (A.NotClosed, TypeError, AttributeError, IndexError, KeyError, ValueError):
+                            closes.append((norm(x.func.value), None))
+
+            def unk(nd, e):
+                raise AnalysisError('%s: a test cannot be decided: %s' % (qual, norm(nd.ast)))
+            from ..absint import NotClosedTest
+            try:
+                explore(g, env, funcs=funcs, on_node=on_node, on_unknown=unk)
+            except NotClosedTest as e_:
+                raise AnalysisError('%s cannot be decided: %s' % (qual, e_))
+            if not fin:
+                raise AnalysisError('%s: no outcome' % qual)
+            msg = ''
+            for e in fin:
+                own = e.get('self.cur_%s_node' % lvl)
+                cur = e.get('self.cur_seg_node')
+                if kind == 'add':
+                    if not made or own is not made[-1]:
+                        msg = 'the new %s node does not become the current %s node (it is %r)' % (lvl.upper(), lvl.upper(), own)
+                    elif parent_lvl is not None and (not nodes[parent_lvl].children or nodes[parent_lvl].children[-1] is not own or own.parent is not nodes[parent_lvl]):
+                        msg = 'the new %s node is not the last child of the current %s node' % (lvl.upper(), parent_lvl.upper())
+                    elif parent_lvl is None and (not root.children or root.children[-1] is not own or own.parent is not root):
+                        msg = 'the new ISA node is not the last child of the error tree root'
+                else:
+                    if own is not nodes[lvl]:
+                        msg = 'closing replaces the current %s node' % lvl.upper()
+                    elif len(closes) != 1 or closes[0][0] is not nodes[lvl] or closes[0][1] != ('MAPNODE', 'SEGDATA', 'SRC'):
+                        msg = 'the %s node is not closed with the map node, the trailer and the reader (close calls: %s)' % (lvl.upper(), closes)
+                if not msg and cur is not own:
+                    msg = 'the current segment node afterwards is %r, not the %s node: an error on this %s is attached to the wrong node' % (
+                        cur, lvl.upper(), 'header' if kind == 'add' else 'trailer')
+                if not msg and e.get('self.seg_node_added') is not True:
+                    msg = 'seg_node_added is %r afterwards: the envelope node would be appended again as a segment of the set' % (e.get('self.seg_node_added'),)
+            yield Ob('error_handler:%s leaves the %s node as the current segment node' % (qual, lvl.upper()), not msg, ctx.floc(fn), msg)
+
+def r19_open_envelope_ids(ctx):
+    """the acknowledgement names every group and set with its own control number: the error-tree nodes take them from
+    the reader's get_isa_id / get_gs_id / get_st_id (and the AK3 loop identifier from get_ls_id), which must answer the
+    control number of the open loop of THAT kind - whatever else is open above or below it - and None when no such loop
+    is open; get_seg_count / get_cur_line answer the two counters.  Decided by constant propagation over stacks of open
+    loops."""
+    from ..absint import run_function, helper_oracles, NotClosedTest
+    hf = helper_oracles(ctx, 'x12file', all_methods_of='X12Base')
+    STACKS = ((), (('ISA', 'i1'),), (('ISA', 'i1'), ('GS', 'g1')), (('ISA', 'i1'), ('GS', 'g1'), ('ST', 's1')),
+              (('ISA', 'i1'), ('GS', 'g1'), ('ST', 's1'), ('LS', 'l1')), (('GS', 'g9'),), (('ST', 's9'), ('LS', 'l9')))
+    for kind, nm in (('ISA', 'get_isa_id'), ('GS', 'get_gs_id'), ('ST', 'get_st_id'), ('LS', 'get_ls_id')):
+        fn = ctx.func('x12file', 'X12Base.' + nm)
+        bad = []
+        for st in STACKS:
+            try:
+                got = run_function(ctx.cfg(fn), fn, [None], hf, env={'self.loops': st})
+            except (NotClosedTest, A.NotClosed) as e:
+                raise AnalysisError('X12Base.%s cannot be decided on the stack %s: %s' % (nm, [t for t, _ in st], e))
+            want = next((i for t, i in st if t == kind), None)
+            if got != want:
+                bad.append('with %s open %s() answers %r, expected %r' % ([t for t, _ in st] or 'nothing', nm, got, want))
+        yield Ob('x12file:X12Base.%s answers the control number of the open %s loop' % (nm, kind), not bad, ctx.floc(fn), '' if not bad else bad[0])
+    for nm, attr in (('get_seg_count', 'self.seg_count'), ('get_cur_line', 'self.cur_line')):
+        fn = ctx.func('x12file', 'X12Base.' + nm)
+        try:
+            got = run_function(ctx.cfg(fn), fn, [None], hf, env={'self.seg_count': 17, 'self.cur_line': 42, 'self.loops': ()})
+        except (NotClosedTest, A.NotClosed) as e:
+            raise AnalysisError('X12Base.%s cannot be decided: %s' % (nm, e))
+        want = 17 if attr == 'self.seg_count' else 42
+        yield Ob('x12file:X12Base.%s answers %s' % (nm, attr), got == want, ctx.floc(fn), '' if got == want else 'answers %r with seg_count 17, cur_line 42' % (got,))
+
 
 RULES = [
     Rule('C05.R17', 'shared with C15.R2: a validator answers False only after a report', r17_false_means_reported, floor=5),
@@ -884,5 +1026,7 @@ RULES = [
     Rule('C05.R14', 'get_error_count of every error-tree level is the sum over children, elements and own errors (constant propagation)', r14_error_totals, floor=3),
     Rule('C05.R13', 'visit_seg: an AK3/IK3 for every standard segment code and for every segment with element errors (constant propagation)', r13_segment_items, floor=2),
     Rule('C05.R12', 'ISA05-08 / GS02-03 of the acknowledgement are the received receiver and sender, swapped', r12_addressed_to_sender, floor=9),
+    Rule('C05.R18', 'after add_/close_ of an interchange, group or set the current segment node is that envelope node (constant propagation)', r18_current_node_follows_the_envelope, floor=6),
+    Rule('C05.R19', 'get_isa_id / get_gs_id / get_st_id / get_ls_id answer the open loop of their kind; position getters answer their counter (constant propagation)', r19_open_envelope_ids, floor=6),
     Rule('C05.R11', 'errors on SE/GE themselves are reflected in the set/group code (validated before close, or code evaluated when read)', r11_trailer_errors_count, floor=2),
 ]
